@@ -88,6 +88,27 @@ func vmHandler(id int, obj interface{}, arg int) {
 	}
 }
 
+// vmRaceJitter is the handler of the -race runs: no atomics, no locks (it must not add
+// happens-before edges).
+var (
+	vmRaceHits [32]uint64
+	vmRaceSeed uint64
+)
+
+//go:norace
+func vmRaceJitter(id int) {
+	i := id & 31
+	vmRaceHits[i]++
+	h := vfMix2(vmRaceSeed^uint64(i)<<32, vmRaceHits[i])
+	if h%1000 < 200 {
+		if (h>>12)%4 < 3 {
+			runtime.Gosched()
+		} else {
+			time.Sleep(time.Duration((h>>20)%100) * time.Microsecond)
+		}
+	}
+}
+
 // ------------------------------------------------------------------ frames
 
 // frame: id(4) len(4) payload(len) where payload = PRF(id)
@@ -257,13 +278,15 @@ func vmTrial(r *vfRng, cfg vmCfg) (res vmResult) {
 			}
 		}(a)
 	}
+	closeDelay := time.Duration(r.intn(1500)) * time.Microsecond // r is not shared with goroutines
+	connCloseDelay := time.Duration(r.intn(2000)) * time.Microsecond
 	closeDone := make(chan struct{})
 	go func() {
 		defer close(closeDone)
 		<-start
 		switch cfg.Close {
 		case "during":
-			time.Sleep(time.Duration(r.intn(1500)) * time.Microsecond)
+			time.Sleep(closeDelay)
 		case "after":
 			wg.Wait()
 		default:
@@ -292,7 +315,7 @@ func vmTrial(r *vfRng, cfg vmCfg) (res vmResult) {
 	if cfg.ConnClose {
 		go func() {
 			<-start
-			time.Sleep(time.Duration(r.intn(2000)) * time.Microsecond)
+			time.Sleep(connCloseDelay)
 			conn.Close()
 		}()
 	}
@@ -452,7 +475,13 @@ func TestVerifMux(t *testing.T) {
 	seed := uint64(vfEnvInt("VERIF_SEED", 1))
 	from := vfEnvInt("VERIF_FROM", 0)
 	count := vfEnvInt("VERIF_COUNT", 10)
-	verifPointHandler.Store(func(id int, obj interface{}, arg int) { vmHandler(id, obj, arg) })
+	switch vfEnvStr("VERIF_RACE_MODE", "") {
+	case "":
+		verifPointHandler.Store(func(id int, obj interface{}, arg int) { vmHandler(id, obj, arg) })
+	case "jitter":
+		vmRaceSeed = seed
+		verifPointHandler.Store(func(id int, obj interface{}, arg int) { vmRaceJitter(id) })
+	}
 	logf, _ := ioutil.TempFile("", "vfnetpoll-log")
 	if logf != nil {
 		netpoll.SetLoggerOutput(logf)
@@ -484,6 +513,9 @@ func TestVerifMux(t *testing.T) {
 			cfg = directed[-idx-1]
 		} else {
 			cfg = vmGenCfg(r)
+		}
+		if vfEnvStr("VERIF_RACE_MODE", "") != "" {
+			cfg.Mode = 0
 		}
 		vfProgress(vfSprintf("C17 trial=%d seed=%d", idx, ts))
 		done := make(chan vmResult, 1)
